@@ -3,5 +3,5 @@ CONSTANTS
   Depth = 3
   Slices = FALSE
 SPECIFICATION Spec
-INVARIANTS AnswerIsDeclarative IndexIsConsistent LinesRejoin EmitCase
+INVARIANTS AnswerIsDeclarative IndexIsConsistent LinesRejoin RepLemma EmitCase
 CHECK_DEADLOCK FALSE
